@@ -27,6 +27,8 @@ impl ChaikinMoneyFlow {
 		r is Ok ==> r->Ok_0.inv() && r->Ok_0.cfg == self,
 		r is Ok ==> r->Ok_0.window.view() =~= konst(self.size as nat, candle.volume_s()) && r->Ok_0.cross_over.up.last_delta@ == 0real,
 		r is Ok && ordered_candle(candle) ==> r->Ok_0.dominated(),
+		// C08: for a candle with positive volume, the constant state for that candle (cmf_const_step)
+		r is Ok && candle.volume_s()@ > 0real ==> r->Ok_0.const_state(candle),
 //@replace Ok(Self::Instance { ==> Ok(ChaikinMoneyFlowInstance {
 //@replace ADI::new(cfg.size, candle)? ==> ADI::new(cfg.size, as_dyn(candle))?
 //@hint before Ok(Self::Instance
@@ -123,6 +125,38 @@ impl ChaikinMoneyFlowInstance {
 		}
 	}
 //@end
+}
+
+// ---- C08 at indicator level: ChaikinMoneyFlow (windowed, size > 1) on a repeated candle with positive volume: value = the candle's CLV at every step, no signal
+pub open spec fn all_eq(v: Seq<R>, s: real) -> bool { forall|i: int| 0 <= i < v.len() ==> (#[trigger] v[i])@ == s }
+impl ChaikinMoneyFlowInstance {
+	pub open spec fn const_state<T: OHLCV>(&self, c: &T) -> bool {
+		&&& self.inv() && c.volume_s()@ > 0real
+		&&& all_eq(self.adi.window.view(), clv_spec(as_dyn_spec(c)) * c.volume_s()@) && all_eq(self.window.view(), c.volume_s()@)
+		&&& self.adi.window.view().len() == self.window.view().len()
+		&&& (self.cross_over.up.last_delta@ == 0real || self.cross_over.up.last_delta@ == clv_spec(as_dyn_spec(c)))
+	}
+}
+pub proof fn cmf_const_step<T: OHLCV>(pre: &ChaikinMoneyFlowInstance, c: &T, post: &ChaikinMoneyFlowInstance, value: ValueType, z: ValueType, sig: Action)
+	requires pre.const_state(c), post.inv(), as_dyn_spec(c).volume_s() == c.volume_s(),
+		post.window.view() == pre.window.view().drop_first().push(c.volume_s()),
+		ADI::step(&pre.adi, as_dyn_spec(c), &post.adi, &post.adi.cmf_sum),
+		sum(post.window.view()) != 0real ==> value@ == post.adi.cmf_sum@ / sum(post.window.view()),
+		z@ == 0real, Cross::step(&pre.cross_over, &(value, z), &post.cross_over, &sig)
+	ensures value@ == clv_spec(as_dyn_spec(c)), sig is None, post.const_state(c)
+{
+	let (k, v) = (clv_spec(as_dyn_spec(c)), c.volume_s()@);
+	let (a, b) = (post.adi.window.view(), post.window.view());
+	assert forall|i: int| 0 <= i < b.len() implies (#[trigger] b[i])@ == v by { if i < b.len() - 1 { assert(b[i] == pre.window.view()[i + 1]); } }
+	assert forall|i: int| 0 <= i < a.len() implies (#[trigger] a[i])@ == k * v by {
+		if i < a.len() - 1 { assert(a[i] == a.drop_last()[i] && a.drop_last()[i] == pre.adi.window.view().drop_first()[i] && pre.adi.window.view().drop_first()[i] == pre.adi.window.view()[i + 1]); }
+		else { assert(a[i] == a.last()); }
+	}
+	lemma_sum_all_eq(a, k * v);
+	lemma_sum_all_eq(b, v);
+	let n = b.len() as real;
+	assert(n * v > 0real) by(nonlinear_arith) requires n >= 1real, v > 0real;
+	assert((n * (k * v)) / (n * v) == k) by(nonlinear_arith) requires n >= 1real, v > 0real;
 }
 
 // ================================================================== StochasticOscillator (generic in the averaging kind)
@@ -224,6 +258,34 @@ impl<M: MovingAverageConstructor> StochasticOscillatorInstance<M> {
 //@replace let s1 = self.cross_above1.next(&(f1, self.cfg.zone)) - self.cross_under1.next(&(f1, self.upper_zone)); ==> let a1__ = self.cross_above1.next(&(f1, self.cfg.zone)); let u1__ = self.cross_under1.next(&(f1, self.upper_zone)); let s1 = a1__ - u1__;
 //@replace let s2 = self.cross_above2.next(&(f2, self.cfg.zone)) - self.cross_under2.next(&(f2, self.upper_zone)); ==> let a2__ = self.cross_above2.next(&(f2, self.cfg.zone)); let u2__ = self.cross_under2.next(&(f2, self.upper_zone)); let s2 = a2__ - u2__;
 //@end
+}
+// ---- C08 at indicator level (averaging kinds that cannot overshoot): StochasticOscillator on a repeated candle: %K = %D = the candle's own %K, no signals
+impl<M: MovingAverageConstructor> StochasticOscillatorInstance<M> {
+	pub open spec fn const_state(&self, c: real, h: real, l: real) -> bool {
+		let k = k_rows_spec(c, h, l);
+		&&& self.inv() && all_eq(self.highest.window.view(), h) && all_eq(self.lowest.window.view(), l)
+		&&& self.ma1.convex() && self.ma2.convex() && self.ma1.within(k, k) && self.ma2.within(k, k)
+		&&& self.cross_over.up.last_delta@ == 0real
+		// each zone detector has either not seen a value yet or holds the constant difference
+		&&& (self.cross_above1.last_delta@ == 0real || self.cross_above1.last_delta@ == k - self.cfg.zone@)
+		&&& (self.cross_under1.last_delta@ == 0real || self.cross_under1.last_delta@ == k - self.upper_zone@)
+		&&& (self.cross_above2.last_delta@ == 0real || self.cross_above2.last_delta@ == k - self.cfg.zone@)
+		&&& (self.cross_under2.last_delta@ == 0real || self.cross_under2.last_delta@ == k - self.upper_zone@)
+	}
+}
+pub proof fn stoch_const_step<M: MovingAverageConstructor>(pre: &StochasticOscillatorInstance<M>, c: real, h: ValueType, l: ValueType, post: &StochasticOscillatorInstance<M>, f1: ValueType, f2: ValueType,
+	hi: ValueType, lo: ValueType, k: ValueType, s1: Action, s2: Action, s3: Action, a1: Action, u1: Action, a2: Action, u2: Action)
+	requires pre.const_state(c, h@, l@), post.inv(), post.cfg == pre.cfg, stoch_step(pre, c, h, l, post, f1, f2, hi, lo, k),
+		stoch_signals(pre, f1, f2, post, s1, s2, a1, u1, a2, u2), Cross::step(&pre.cross_over, &(f1, f2), &post.cross_over, &s3)
+	ensures f1@ == k_rows_spec(c, h@, l@), f2@ == f1@, sv(s1) == 0, sv(s2) == 0, s3 is None, post.const_state(c, h@, l@)
+{
+	let kk = k_rows_spec(c, h@, l@);
+	let (a, b) = (post.highest.window.view(), post.lowest.window.view());
+	assert forall|i: int| 0 <= i < a.len() implies (#[trigger] a[i])@ == h@ by { if i < a.len() - 1 { assert(a[i] == pre.highest.window.view()[i + 1]); } }
+	assert forall|i: int| 0 <= i < b.len() implies (#[trigger] b[i])@ == l@ by { if i < b.len() - 1 { assert(b[i] == pre.lowest.window.view()[i + 1]); } }
+	assert(hi@ == h@ && lo@ == l@);
+	<M::Instance as MovingAverage>::lemma_within_step(&pre.ma1, &k, &post.ma1, &f1, kk, kk);
+	<M::Instance as MovingAverage>::lemma_within_step(&pre.ma2, &f1, &post.ma2, &f2, kk, kk);
 }
 pub open spec fn stoch_signals<M: MovingAverageConstructor>(pre: &StochasticOscillatorInstance<M>, f1: ValueType, f2: ValueType, post: &StochasticOscillatorInstance<M>, s1: Action, s2: Action, a1: Action, u1: Action, a2: Action, u2: Action) -> bool {
 	&&& CrossAbove::step(&pre.cross_above1, &(f1, pre.cfg.zone), &post.cross_above1, &a1)
